@@ -1,0 +1,37 @@
+//go:build verif
+
+package go_clipper2
+
+// Verification hooks (build tag "verif"). Nothing in this file is compiled into
+// a normal build. The hooks only expose unexported options and predicates to the
+// external conformance harness; they do not change behaviour.
+
+const verifOn = true
+
+// VerifSetOptions64 sets the two unexported engine options.
+func VerifSetOptions64(c *clipper64, preserveCollinear, reverseSolution bool) {
+	c.preserveCollinear = preserveCollinear
+	c.reverseSolution = reverseSolution
+}
+
+// VerifSetOptionsD sets the two unexported engine options.
+func VerifSetOptionsD(c *clipperD, preserveCollinear, reverseSolution bool) {
+	c.preserveCollinear = preserveCollinear
+	c.reverseSolution = reverseSolution
+}
+
+// VerifIsCollinear exposes isCollinear.
+func VerifIsCollinear(pt1, sharedPt, pt2 Point64) bool { return isCollinear(pt1, sharedPt, pt2) }
+
+// VerifProductsAreEqual exposes productsAreEqual.
+func VerifProductsAreEqual(a, b, c, d int64) bool { return productsAreEqual(a, b, c, d) }
+
+// VerifSegsIntersect exposes segsIntersect.
+func VerifSegsIntersect(a, b, c, d Point64, inclusive bool) bool {
+	return segsIntersect(a, b, c, d, inclusive)
+}
+
+// VerifGetSegmentIntersectPt exposes getSegmentIntersectPt.
+func VerifGetSegmentIntersectPt(a, b, c, d Point64) (Point64, bool) {
+	return getSegmentIntersectPt(a, b, c, d)
+}
